@@ -143,7 +143,7 @@ CHECKS["C15"] = dict(
          "exploration of resolve_variables with symbolic names, keeping the obligation that each unbound occurrence is reported once with that identifier's "
          "range. U: the C09 exploration of tokenize, keeping the obligation that an unexpected symbol's range is exactly that grapheme. B: the packrat parser on "
          "symbolic token sequences of 3-6 (quick) / 7 (thorough) tokens over the binder alphabet: every lambda/pi/let binder's range is its identifier token. "
-         "Defects found and repaired: by L fix bc229c2 (overline counted bytes), by B fix 0ee217c (implicit binder pointed at the brace). Counterexamples are rendered by the compiled listing / type checker (a one-line ruler as source recovers the range). Plus O: every definition-order diagnostic of the real check_definitions on symbolic groups of 2-3 definitions carries the range of the definition it names.",
+         "Defects found and repaired: by L fix bc229c2 (overline counted bytes), by B fix 0ee217c (implicit binder pointed at the brace). Counterexamples are rendered by the compiled listing / type checker (a one-line ruler as source recovers the range). Plus O: every definition-order diagnostic of the real check_definitions on symbolic groups of 2-3 definitions carries the range of the definition it names. A: after the three re-association passes (chains of <= 4/5 operands with parentheses and unary minus) the range of every chain node covers both of its operands or is a parenthesised range.",
     note="Trusted: executor + models (char predicates and UTF-8 widths read from compiled std and validated), the reference checker's blame site, z3. NOT covered: "
          "re-parsing a node's slice; colour mode; "
          "display width of wide/combining characters.",
